@@ -651,7 +651,14 @@ class VerifCtx:
         raise Unsupported(f"str.{name} on symbolic string")
 
     def float_of_str(self, ex, v, line):
-        raise Unsupported("float(str)")
+        """float(str): either ValueError or some float (which spellings are accepted is not modelled here)."""
+        from .sym import SFloat, FloatS
+        f = z3.Function("py_float_of_str", Str, FloatS)
+        ok = z3.Function("py_float_accepts", Str, Bool)
+        t = lift(v)
+        if not ex.decide(ok(t), "float(str) accepts"):
+            raise PyRaise(VExc("ValueError", (), f"L{line}:float()"))
+        return SFloat(f(t))
 
     def join_slist(self, ex, sep, lst, line):
         raise Unsupported("join of symbolic list")
@@ -745,6 +752,8 @@ def _to_value(v):
     if isinstance(v, dict):
         return PDict({k: _to_value(x) for k, x in v.items()})
     if isinstance(v, tuple) and v and v[0] == "re.compile":
+        if v[2]:
+            raise Unsupported("re.compile with flags inside a table literal")
         return RePattern(v[1])
     if isinstance(v, tuple):
         return tuple(_to_value(x) for x in v)
